@@ -19,6 +19,7 @@ import (
 	"github.com/tink-crypto/tink-go/v2/aead/xaesgcm"
 	"github.com/tink-crypto/tink-go/v2/aead/xchacha20poly1305"
 	"github.com/tink-crypto/tink-go/v2/core/registry"
+	"github.com/tink-crypto/tink-go/v2/insecurecleartextkeyset"
 	"github.com/tink-crypto/tink-go/v2/insecuresecretdataaccess"
 	"github.com/tink-crypto/tink-go/v2/key"
 	"github.com/tink-crypto/tink-go/v2/keyset"
@@ -465,7 +466,7 @@ func (c *Cfg) Build() (tink.AEAD, error) {
 		if err != nil {
 			return nil, err
 		}
-		return aead.New(hd)
+		return singleWithRoundTrip(c, hd)
 	case PathProto:
 		hd, err := c.protoHandle()
 		if err != nil {
@@ -573,6 +574,69 @@ func (c *Cfg) buildEnvelope() (tink.AEAD, error) {
 		return aead.New(hd)
 	}
 	return nil, fmt.Errorf("unknown envelope path %q", c.Path)
+}
+
+// singleWithRoundTrip: the keyset.Manager route. The keyset entry of a key with an id requirement must carry that
+// id (the output prefix is a function of the KEYSET key id), and the same keyset written out and read back is the
+// same key: the primitive returned here encrypts with the manager's handle and decrypts with BOTH that handle and
+// the handle read back from the serialised keyset - a divergence surfaces as a rejection of a valid ciphertext
+// (accepted by one, refused by the other: error) or as an acceptance (plaintext of whichever accepted).
+func singleWithRoundTrip(c *Cfg, hd *keyset.Handle) (tink.AEAD, error) {
+	a, err := aead.New(hd)
+	if err != nil {
+		return nil, err
+	}
+	pe, err := hd.Primary()
+	if err != nil {
+		return nil, err
+	}
+	if c.Variant != ref.Raw && pe.KeyID() != c.ID {
+		return nil, fmt.Errorf("keyset.Manager.AddKey gave the %v key with id requirement %#x the keyset key id %#x (the ciphertext prefix cannot be the keyset's key id)", c.Variant, c.ID, pe.KeyID())
+	}
+	var buf bytes.Buffer
+	if err := insecurecleartextkeyset.Write(hd, keyset.NewBinaryWriter(&buf)); err != nil {
+		return nil, fmt.Errorf("writing the manager's keyset: %v", err)
+	}
+	hd2, err := insecurecleartextkeyset.Read(keyset.NewBinaryReader(bytes.NewReader(buf.Bytes())))
+	if err != nil {
+		return nil, fmt.Errorf("reading the manager's keyset back: %v", err)
+	}
+	b, err := aead.New(hd2)
+	if err != nil {
+		return nil, fmt.Errorf("aead.New on the keyset read back: %v", err)
+	}
+	return &dualAEAD{a, b, 0}, nil
+}
+
+type dualAEAD struct {
+	a, b tink.AEAD
+	n    int
+}
+
+// Encrypt alternates between the two handles (both are the same key).
+func (d *dualAEAD) Encrypt(pt, ad []byte) ([]byte, error) {
+	d.n++
+	if d.n%2 == 0 {
+		return d.b.Encrypt(pt, ad)
+	}
+	return d.a.Encrypt(pt, ad)
+}
+
+func (d *dualAEAD) Decrypt(ct, ad []byte) ([]byte, error) {
+	pa, ea := d.a.Decrypt(ct, ad)
+	pb, eb := d.b.Decrypt(ct, ad)
+	switch {
+	case ea == nil && eb == nil:
+		if !bytes.Equal(pa, pb) {
+			return nil, fmt.Errorf("the manager's handle and the same keyset read back decrypt to different plaintexts")
+		}
+		return pa, nil
+	case ea != nil && eb != nil:
+		return nil, ea
+	case ea == nil:
+		return nil, fmt.Errorf("accepted by the manager's handle, refused by the same keyset read back: %v", eb)
+	}
+	return nil, fmt.Errorf("refused by the manager's handle (%v), accepted by the same keyset read back", ea)
 }
 
 // ---------- reference side ----------
@@ -746,7 +810,7 @@ var digest = map[string]int{"SHA1": 20, "SHA224": 28, "SHA256": 32, "SHA384": 48
 
 // Opts narrows the enumeration.
 type Opts struct {
-	AllIDs      bool // every id of tk.IDs (else the default id and 0xFFFFFFFF)
+	AllIDs      bool // every id of tk.IDs (else the default id, 0 and 0xFFFFFFFF)
 	OneID       bool // only the default id
 	AllVariants bool // quick tier of C01 uses TINK, LEGACY (proto path) and RAW; true = every variant
 	Keys        int  // number of different key materials for the cheap kinds (0 = 1)
@@ -804,7 +868,7 @@ func Choose(x *h.X, kind Kind, o Opts) (c *Cfg, ok bool) {
 		vs = []ref.Variant{ref.Tink, ref.Legacy, ref.Raw}
 	}
 	c.Variant = h.Pick(x, "variant", vs)
-	ids := []uint32{tk.IDs[0], 0xFFFFFFFF}
+	ids := []uint32{tk.IDs[0], 0, 0xFFFFFFFF} // 0 is an id like any other: "no id requirement" belongs to the variant, not to the number
 	if o.AllIDs {
 		ids = tk.IDs
 	} else if o.OneID {
